@@ -86,3 +86,27 @@ Example C03_division_example :
   dec_div (mkdec false 2 0) (mkdec false 0 0) = DDivZero.
 Proof. vm_compute. repeat split. Qed.
 Print Assumptions C03_division_example.
+
+(* MIN / MAX. The order of decimals is the order of the rationals they denote - a total preorder ([dle] is reflexive,
+   transitive and total; 1.0 and 1.00 are equal in it). min (max) of a non-empty argument list of numbers is one of the
+   arguments and no argument is smaller (greater); any non-number argument makes it an error (C03_type_errors covers that). *)
+From EE Require Import AggregateLemmas.
+Theorem C03_order_is_total_preorder : (forall a, dle a a) /\ (forall a b c, dle a b -> dle b c -> dle a c) /\ (forall a b, dle a b \/ dle b a).
+Proof. repeat split; [exact dle_refl | exact dle_trans | exact dle_total]. Qed.
+Print Assumptions C03_order_is_total_preorder.
+
+Theorem C03_min_max : forall args d,
+  (builtin_function n_min args = Some (AVal (VNum d) false) ->
+     In (VNum d) args /\ (forall x, In (VNum x) args -> dle d x) /\ (forall v, In v args -> exists x, v = VNum x)) /\
+  (builtin_function n_max args = Some (AVal (VNum d) false) ->
+     In (VNum d) args /\ (forall x, In (VNum x) args -> dle x d) /\ (forall v, In v args -> exists x, v = VNum x)).
+Proof.
+  intros args d. split; intros H.
+  - assert (E : builtin_function n_min args = Some (fold_ext dec_ltb None args)) by reflexivity. rewrite E in H. inversion H as [H1].
+    destruct (fold_min_spec args None d H1) as (_ & B & C & D). repeat split; try assumption.
+    destruct C as [(c & X & _)|C]; [discriminate X | exact C].
+  - assert (E : builtin_function n_max args = Some (fold_ext (fun d c => dec_ltb c d) None args)) by reflexivity. rewrite E in H. inversion H as [H1].
+    destruct (fold_max_spec args None d H1) as (_ & B & C & D). repeat split; try assumption.
+    destruct C as [(c & X & _)|C]; [discriminate X | exact C].
+Qed.
+Print Assumptions C03_min_max.
